@@ -4,6 +4,8 @@ import hashlib
 from .. import gen, probes
 from ..ref import bip39 as rb39
 
+from ..core import refused
+
 PROP = "C04"
 LEVEL = "exploration"
 SHARDS = {"quick": 8, "thorough": 16}
@@ -71,16 +73,13 @@ def judge_reject_size(ctx, case):
     import btc_hd_wallet.bip39 as b39
     from btc_hd_wallet.base_wallet import BaseWallet
     hx = case["hex"]
-    try:
-        if case.get("via") == "wallet":
-            got = BaseWallet.from_entropy_hex(entropy_hex=hx).mnemonic
-        else:
-            got = b39.mnemonic_from_entropy(hx)
-        ok, outcome = False, "returned-%d-words" % len(got.split(" "))
-    except Exception as e:  # noqa
-        got, ok, outcome = e, True, "raised:" + type(e).__name__
-    return ctx.judge("reject_size", ok, case, "raise", got, cls="reject|%s|%s" % (case["tag"], case.get("via", "fn")),
-                     outcome=outcome.split("-")[0], mech="C04.reject_size.accepted")
+    # (the refusal must be stable: asked again straight away - a retry - it is refused again)
+    if case.get("via") == "wallet":
+        ok, got, outcome = refused(lambda: BaseWallet.from_entropy_hex(entropy_hex=hx).mnemonic)
+    else:
+        ok, got, outcome = refused(lambda: b39.mnemonic_from_entropy(hx))
+    return ctx.judge("reject_size", ok, case, "raise (every attempt)", got, cls="reject|%s|%s" % (case["tag"], case.get("via", "fn")),
+                     outcome=outcome.split("@")[0] if ok else outcome, mech="C04.reject_size.accepted")
 
 
 def judge_whitespace(ctx, case):
